@@ -16,9 +16,10 @@ CONSTANTS
     CloseReleasesBlob = TRUE
     CloseFiles = TRUE
     StampOnlyOnSuccess = TRUE
+    BlobReleasedOnCloseError = TRUE
 INIT Init
 NEXT Next
 VIEW core
-INVARIANTS HeldLayerServes AllReleasedAndEvictedFreesEverything ClosedMeansGone NoOpenFilesAfterClose FailedResolveLeaksNothing RefsAccount LockOK CachedIsLive
+INVARIANTS HeldLayerServes AllReleasedAndEvictedFreesEverything UnusedBlobIsGone ClosedMeansGone NoOpenFilesAfterClose FailedResolveLeaksNothing RefsAccount LockOK CachedIsLive
 PROPERTIES ReadWorks ReturnedIsCached NoDuplicateCreation ResolveAgainWorks CheckNotFooled
 CHECK_DEADLOCK FALSE
